@@ -72,6 +72,23 @@ func ioFaults(r *Run) {
 	w := GenWorld(r, GenOpts{Par1: par1Set, MaxFiles: 5, SmallOnly: true, MaxR: 5, SliceSizes: []int{4, 8, 12, 16, 20, 64, 100, 256, 1024, 4096}})
 	sc := &ioScenario{w: w, index: w.Index, paths: w.FilePaths(), dc: t.Bool(1, 2, "dc"), g: []int{1, 2, 4}[t.Draw(3, "g")]}
 	sc.op = []string{"create", "verify", "repair"}[t.Pick([]int{2, 2, 5}, "op")]
+	if !par1Set && t.Bool(1, 100, "megabytes-of-recovery-data") {
+		// a Create that writes several MiB of recovery data (writers tend
+		// to buffer, batch or chunk their output above some size)
+		w.S = []int{256 << 10, 512 << 10, 1 << 20}[t.Draw(3, "big-S")]
+		w.R = 6 + t.Draw(7, "big-R")
+		data := expandContent(ckRandom, t.Draw64(0, "big-seed"), w.S/2+t.Draw(w.S, "big-size"), 64)
+		w.Files = w.Files[:1]
+		w.Files[0].Data = data
+		for p := range w.Disk.Snapshot() {
+			w.Disk.Remove(p)
+		}
+		w.Disk.Put(w.Path(0), data)
+		w.N = (len(data) + w.S - 1) / w.S
+		sc.paths = w.FilePaths()
+		sc.op = "create"
+		r.Probe("create-with-megabytes-of-recovery-data")
+	}
 	stateClass := "fresh"
 	if sc.op != "create" {
 		var cre *OpResult
